@@ -681,6 +681,14 @@ def rules(rep, m):
     from . import siftrules
     siftrules.check_scans(rep, r6s, m, only={"sum_holder_items"})
 
+    # R-C07-7 ------------------------------------------------------------
+    r7 = rep.rule("R-C07-7", "the unit accounting is the same in every documented build configuration: no state-changing call "
+                  "(removing a holder record, dropping a holding tag, ...) sits inside the condition of an assertion or among "
+                  "the arguments of a logging call, which NDEBUG / NASSERT / NLOGINFO compile out", floor=1)
+    common.config_effects_rule(rep, r7, m, consequence=" - with the flag set, records and tags that should have been removed stay, "
+                               "and the units in use no longer equal the sum of the holdings")
+
+
 
 def run(tier="quick"):
     models = common.load_models(tier)
